@@ -209,14 +209,25 @@ def spec_from_yaml_doc(doc, name="yaml"):
     return spec
 
 
+_SCRATCH = {}
+
+
 def load_yaml_text_with_nasim(text, name="verif"):
-    """Write `text` to a scratch file and load it with the real loader (file removed afterwards)."""
+    """Write `text` to a scratch file and load it with the real loader.  Each process REUSES one scratch path
+    for all its loads (a file that is rewritten and loaded again must be read again), removed at exit."""
     from .common import import_nasim
     nasim = import_nasim()
-    fd, path = tempfile.mkstemp(suffix=".yaml", prefix="nasimverif_")
+    pid = os.getpid()
+    path = _SCRATCH.get(pid)
+    if path is None:
+        d = tempfile.mkdtemp(prefix="nasimverif_")
+        path = os.path.join(d, "scenario.yaml")
+        _SCRATCH[pid] = path
+        import atexit, shutil
+        atexit.register(lambda d=d, p=pid: (os.getpid() == p) and shutil.rmtree(d, ignore_errors=True))
+    with open(path, "w") as f:
+        f.write(text)
     try:
-        with os.fdopen(fd, "w") as f:
-            f.write(text)
         return nasim.load_scenario(path, name=name)
     finally:
         try:
